@@ -14,6 +14,18 @@ CLAIMED = {
  "C03": dict(text="post-conditions 'decodes back to the arguments' proved for the 4 Modbus encoders, 9 command constructors, AA55 checksum, _next_tx step (inductive invariant for arbitrarily long histories) and request_bytes",
              note="same trusted base as C01; hex formatting modelled on 0 <= x < 16**W only (out-of-range forks: negative -> ValueError as in CPython, too wide -> undecided)", ref="4/C03"),
 }
+CLAIMED.update({
+ "C11": dict(text="for every row of every sensor/setting table of ET/DT/ES: read() on any payload of any length and any block start raises nothing but ValueError (symbolic execution of the real decoders); decode_day_of_week/decode_months total by exhaustive native evaluation of their whole domains",
+             note="_map_response / read_settings_data lifting is proved in the orchestration units once built; assumptions A4 (datetime/struct), T1-T3", ref="4/C11"),
+ "C12": dict(text="for every table row: byte position = documented address mapping, every read stays inside the row's own registers, value = reference decoder of exactly those bytes, for all payloads, lengths and block starts",
+             note="floats in decoders are uninterpreted functions (A5); reference decoders are sidecar text written from the class docstrings", ref="4/C12"),
+ "C13": dict(text="relational post-conditions between the real rows over one symbolic response: labels = lookup(code), bitmaps = set bits, sums/products/formulas; 4 EnumBitmap22 rows are a known finding",
+             note="A5; refutations resting on uninterpreted operators are confirmed by native search before being reported", ref="4/C13"),
+ "C16": dict(text="per row of the ET/DT sensor tables: read_value on exactly ceil(size_/2) registers stays inside them and equals the bulk read (same term); NotImplementedError rows are a known finding",
+             note="cache invariant of _sensors_map is part of the orchestration units (not yet built): listed as undecided clause", ref="4/C16"),
+ "C20": dict(text="frame conditions on every table row: decoding writes to no pre-existing object and never returns a shared definition (executor write log); eco/schedule rows are a known finding",
+             note="F3/F4 (module globals, inverter methods) are part of the orchestration units (not yet built)", ref="4/C20"),
+})
 REASONS = {}
 checks = []
 for p in props:
